@@ -1,17 +1,19 @@
 """C18 — duplicate-surface removal never changes any cell's region.
 
-Obligations: coq/Properties/C18.v over coq/Model/Dedup.v (find_duplicate_surfaces x3, Transform.equivalent,
-the problem-level scan, cell / half-space re-pointing, the pointer re-resolution, the removal).
+Obligations: coq/Properties/C18.v over coq/Model/Dedup.v, Part 1 (the code at /repo HEAD: find_duplicate_surfaces x3 with
+Surface._may_be_merged_with, Transform.equivalent, the problem-level scan, cell / half-space re-pointing with
+cell.surfaces kept consistent, periodic partners re-pointed, the removal).
 Correspondence: generated problems (families of equal / near-equal / look-alike surfaces, shared by many
-cells) are read by the real MontePy, optionally edited, then `remove_duplicate_surfaces(tol)` is called;
-the state observed just before the call is sent to the extracted model and everything observable after the
-call is compared (surviving numbers in order, the matching map as the cells received it, every cell's
-geometry tree and cell.surfaces, every survivor's periodic / transform pointer, the exception class).
+cells) are read by the real MontePy, optionally edited (incl. earlier calls and edits aimed at what an earlier call
+changed), then `remove_duplicate_surfaces(tol)` is called; the state observed just before the call is sent to the
+extracted model and everything observable after the call is compared (surviving numbers in order, the matching map as
+the cells received it, every cell's geometry tree and cell.surfaces (as a set), every survivor's periodic / transform
+pointer, the exception class).  Cases with earlier edits are run a second time with nothing observed before the call.
 Oracle (independent of the model): spec.py reads the text before and the text written after the call:
 merged pairs must be true duplicates (type, boundary condition, transform, periodicity, constants within
 tolerance), every cell's truth table is unchanged once merged surfaces are identified, no cell / periodic
 pointer refers to a removed surface, surviving surfaces and senses are untouched; the live objects are
-walked independently for the same sentences.
+walked independently for the same sentences.  There is no open known finding: every oracle failure is a violation.
 """
 import hashlib
 import json
@@ -97,16 +99,11 @@ def transforms_of(pr):
     return [d for d in pr.data_inputs if isinstance(d, Transform)]
 
 
-CELLMOD_CARDS = ("Volume", "UniverseInput", "LatticeInput", "Fill")
-VARIANT = os.environ.get("C18_VARIANT", "c")       # "f": compare with the model of the code with proposed_fixes/C18-1..3
-
-
 def request_of(pr, tol):
     ss = ";".join(surf_wire(s) for s in pr.surfaces) or "-"
     cs = ";".join(cell_wire(c) for c in pr.cells) or "-"
     ts = ";".join(tr_wire(t) for t in transforms_of(pr)) or "-"
-    cellmod = any(type(d).__name__ in CELLMOD_CARDS for d in pr.data_inputs)
-    return "%s%s %s %s %s %s" % (VARIANT, "m" if cellmod else "", q(tol), ss, cs, ts)
+    return "c %s %s %s %s" % (q(tol), ss, cs, ts)
 
 
 def snapshot(pr):
@@ -120,6 +117,12 @@ def snapshot(pr):
         "unique": len({s.number for s in pr.surfaces}) == len(list(pr.surfaces)),
         "class_ok": all(class_consistent(s) for s in pr.surfaces),
         "int_dividers": any(has_int_divider(c.geometry) for c in pr.cells),
+        # the remaining hypotheses of the theorems (measured; a case where one fails is still run and judged)
+        "links": all({int(t[1:]) for t in walk(c.geometry) if t[0] in "pm"} <= {s.number for s in c.surfaces}
+                     for c in pr.cells),
+        "disp3": all(len(t.displacement_vector) == 3 for t in transforms_of(pr)),
+        "arity": all(len(s.surface_constants) == ARITY.get(s.surface_type.value.lower(), len(s.surface_constants))
+                     for s in pr.surfaces if s.surface_type is not None),
     }
 
 
@@ -133,9 +136,13 @@ def class_consistent(s):
 
 
 def call_dedup(pr, tol):
-    """-> (exception class name | None, matching map as the cells received it [(dead, new)...] | None)"""
+    """-> (exception class name | None, matching map as the cells received it [(dead, new)...] | None).
+    The map is the dict handed to the first cell; a problem without cells hands it to nobody: it is then rebuilt from
+    the answers of the find_duplicate_surfaces calls, in call order, with dict semantics."""
     import montepy
+    from montepy.surfaces.surface import Surface
     seen = []
+    answers = []
     orig = montepy.cell.Cell.remove_duplicate_surfaces
 
     def spy(self, deleting_dict):
@@ -143,6 +150,19 @@ def call_dedup(pr, tol):
             seen.append([(k.number, v.number) for k, v in deleting_dict.items()])
         return orig(self, deleting_dict)
 
+    classes = [Surface] + list(_classes())
+    originals = {}
+
+    def make(cls, f):
+        def wrapped(self, surfaces, tolerance):
+            ret = f(self, surfaces, tolerance)
+            answers.append((self.number, [m.number for m in ret]))
+            return ret
+        return wrapped
+    for cls in classes:
+        if "find_duplicate_surfaces" in cls.__dict__:
+            originals[cls] = cls.__dict__["find_duplicate_surfaces"]
+            setattr(cls, "find_duplicate_surfaces", make(cls, originals[cls]))
     montepy.cell.Cell.remove_duplicate_surfaces = spy
     try:
         with warnings.catch_warnings():
@@ -153,7 +173,17 @@ def call_dedup(pr, tol):
         exc = type(e).__name__
     finally:
         montepy.cell.Cell.remove_duplicate_surfaces = orig
-    return exc, (seen[0] if seen else None)
+        for cls, f in originals.items():
+            setattr(cls, "find_duplicate_surfaces", f)
+    if seen:
+        return exc, seen[0]
+    if exc is None and len(list(pr.cells)) == 0:
+        d = {}
+        for me, ms in answers:
+            for x in ms:
+                d[x] = me
+        return exc, list(d.items())
+    return exc, None
 
 
 def real_response(pr, exc, mmap):
@@ -706,6 +736,20 @@ def gen_case(rng, opts=None):
         surfs.append({"mn": mn, "consts": c, "tr": None, "mod": "", "per": False})
         if rng.random() < 0.4:
             surfs.append({"mn": mn, "consts": list(c), "tr": None, "mod": "", "per": False})
+    # ---- a two-stage family (aimed at what an earlier call hands over): base x, A = x + 0.7 T, B = A + T / 500.
+    #      A leaf on B is added to a cell with &= / |=, an earlier call with tolerance T / 100 merges A and B, the
+    #      main call with tolerance T merges their survivor into x.
+    two_stage = o["pre"] and tol > 0 and rng.random() < 0.08
+    if two_stage:
+        mn = rng.choice(FAMILY_TYPES)
+        base = [rng.choice(BASES) for _ in range(ARITY[mn])]
+        if mn[0] == "c":
+            base[-1] = abs(base[-1]) or 1.0
+        j = len(base) - 1 if mn[0] == "c" else 0
+        a = list(base); a[j] = base[j] + 0.7 * tol
+        b = list(a); b[j] = a[j] + tol / 500
+        for stage, cs in (("x", base), ("A", a), ("B", b)):
+            surfs.append({"mn": mn, "consts": cs, "tr": None, "mod": "", "per": False, "stage": stage})
     for s in surfs:
         if s["mn"][0] == "c" and s["consts"][-1] <= 0:
             s["consts"][-1] = 1.0          # a cylinder needs a radius
@@ -794,6 +838,12 @@ def gen_case(rng, opts=None):
                 pre.append(["write"])
             elif trnums:
                 pre.append(["renum_tr", rng.choice(trnums), rng.choice(range(40, 50))])
+    if two_stage:
+        nb = [x["num"] for x in surfs if x.get("stage") == "B"][0]
+        pre = [[rng.choice(["geom_and", "geom_or"]), rng.choice(cnums), nb, rng.random() < 0.5],
+               ["dedup", float(tol / 100).hex()]]
+        if rng.random() < 0.3:
+            pre.append(["write"])
     return {"text": text, "tol": float(tol).hex(), "pre": pre}
 
 
@@ -879,9 +929,6 @@ def attribute_classes(c, r):
         _FINDINGS = types.SimpleNamespace(prop="C18", findings=vlib.load_findings("C18"))
     out = {}
     kinds = sorted({f[0] for f in r.get("fails", [])})
-    if kinds:
-        import findings_C18
-        findings_C18.note_agreement(c, model_agrees(r))
     for k in kinds:
         out[k] = vlib.Ctx.attribute(_FINDINGS, {"kind": k, "case": c})
     return out
@@ -983,10 +1030,11 @@ def run(ctx):
     cases = [c for _, c in corpus]
     for i in range(n_cases):
         cases.append(gen_case(random.Random(f"{ctx.seed}:C18:{i}")))
-    dist = {"cases": 0, "corpus": len(corpus), "skipped": {}, "tol": {}, "with_pre": 0, "pre_ops": {},
+    dist = {"cases": 0, "corpus": len(corpus), "skipped": {}, "tol": {}, "with_pre": 0, "two_stage": 0, "pre_ops": {},
             "merged_pairs": 0, "cases_with_merge": 0, "family_shapes": {}, "exceptions": {},
             "surfaces": 0, "cells": 0, "transforms": 0, "leaves": 0, "rounding_decides": 0,
-            "blind_passes": 0, "with_cell_modifier_card": 0, "cell_surfaces_emptied": 0, "oracle_failure_kinds": {}, "cells_repointed": 0,
+            "blind_passes": 0, "with_cell_modifier_card": 0, "hypothesis_links_false": 0,
+            "hypothesis_disp3_false": 0, "hypothesis_arity_false": 0, "cell_surfaces_emptied": 0, "oracle_failure_kinds": {}, "cells_repointed": 0,
             "surviving_shared_by_2plus_cells": 0}
     results = []
     for c, r in zip(cases, run_all(cases, procs)):
@@ -1009,6 +1057,7 @@ def run(ctx):
         tol = float.fromhex(c["tol"])
         dist["tol"][repr(tol)] = dist["tol"].get(repr(tol), 0) + 1
         dist["with_pre"] += bool(c["pre"])
+        dist["two_stage"] += (len(c["pre"]) >= 2 and c["pre"][0][0] in ("geom_and", "geom_or") and c["pre"][1][0] == "dedup")
         for p in c["pre"]:
             dist["pre_ops"][p[0]] = dist["pre_ops"].get(p[0], 0) + 1
         b = r["before"]
@@ -1016,12 +1065,15 @@ def run(ctx):
         dist["cells"] += len(b["cells"])
         dist["leaves"] += sum(len([t for t in w if t[0] in "pmc"]) for w in b["cells"].values())
         dist["transforms"] += r["request"].split(" ")[4].count(";") + (r["request"].split(" ")[4] != "-")
-        dist["with_cell_modifier_card"] += r["request"].split(" ")[0].endswith("m")
+        dist["with_cell_modifier_card"] += bool(re.search(r"^vol", c["text"], re.M))
         nm = len(r["map"] or [])
         dist["merged_pairs"] += nm
         dist["cases_with_merge"] += nm > 0
         dist["rounding_decides"] += r["rounding"]
         dist["blind_passes"] += bool(r.get("blind"))
+        dist["hypothesis_links_false"] += not b["links"]
+        dist["hypothesis_disp3_false"] += not b["disp3"]
+        dist["hypothesis_arity_false"] += not b["arity"]
         if r["exc"]:
             dist["exceptions"][r["exc"]] = dist["exceptions"].get(r["exc"], 0) + 1
         if "after" in r:
@@ -1105,11 +1157,10 @@ def run(ctx):
             except Exception:       # noqa: BLE001
                 fd["_reproduced"] = False
     tb = vlib.KERNEL_TB + [
-        "modelled, not verified: MCNP_Problem.remove_duplicate_surfaces (incl. the failing re-merge of data-block "
-        "VOL/U/LAT/FILL cards), Cell/HalfSpace/UnitHalfSpace."
+        "modelled, not verified: MCNP_Problem.remove_duplicate_surfaces, Cell/HalfSpace/UnitHalfSpace."
         "remove_duplicate_surfaces, the divider setter, AxisPlane/CylinderOnAxis/CylinderParAxis/Surface."
-        "find_duplicate_surfaces, Transform.equivalent, Surface.update_pointers, the reset of cell.surfaces in "
-        "Cell.update_pointers, as coq/Model/Dedup.v; object identity = number (collection numbers unique: checked "
+        "find_duplicate_surfaces, Surface._may_be_merged_with, Transform.equivalent, as coq/Model/Dedup.v Part 1 "
+        "(/repo HEAD, after d09ab94 f2650a0 983bf94); object identity = number (collection numbers unique: checked "
         "per case); floats = exact rationals (cases where a rounded subtraction decides a comparison are counted "
         "and left out of the correspondence)",
         f"vm_compute cross-check of {nx} requests",
@@ -1117,10 +1168,11 @@ def run(ctx):
         "the matching map is observed by wrapping Cell.remove_duplicate_surfaces for the duration of the call",
     ]
     assumptions = [
-        "NOT modelled: Cells.update_pointers beyond emptying cell.surfaces (material / complement / data-input "
-        "re-resolution: properties C16, C03), integer (unresolved) dividers, the partial state left by an exception",
-        "theorems take as hypotheses: unique surface numbers, class consistent with mnemonic and arity (both checked "
-        "on every real case before the call)",
+        "NOT modelled: integer (unresolved) dividers, leaves that do not know their cell (cell.surfaces compared as a "
+        "set), the partial state left by an exception",
+        "theorems take as hypotheses: unique surface numbers, class consistent with mnemonic and arity, displacement "
+        "vectors of length three, cell.surfaces covering the leaves (all checked on every real case before the call; "
+        "cases outside are counted as skipped)",
     ]
     return ctx.finish(tb, assumptions,
                       "cases = generated problems (1-4 families of equal / near-equal at +-tol*{0.5,0.99,1,1.01,2} / "
